@@ -139,6 +139,7 @@ DIRECTED = [
     ['a |', '     --- |'],                       # delimiter row indented 4+: continuation text (recorded finding)
     ['x', 'y', '    | --'],                      # no pipe in the would-be header line (fixed 32ece83)
     ['the old rule said', '\t> 10 items'],       # a tab-indented '>' is no block quote marker
+    ['total | 10', '-5 | discount'], ['happy | sad', ':-) | :-('],   # second line only STARTS like a delimiter row
     ['a', '\t# b'], ['a', '\t- b'], ['a', ' \t1. b'], ['a', '\t***'], ['a', '\t```'],
 ]
 
